@@ -98,6 +98,33 @@ func (d *Day) SolarRoutes(prev *Day, viaLunar bool) []RouteSolar {
 	}
 	if viaLunar {
 		add("GetLunar().GetSolar()", func() *calendar.Solar { return d.L().GetSolar() })
+		// civil date objects that are items of a unit's list
+		add("item of SolarWeek.GetDays()", func() *calendar.Solar {
+			st := d.J % 7
+			if weekStartOf(d.J, st) < jdnFirst {
+				return nil
+			}
+			for e := calendar.NewSolarWeekFromYmd(d.Y, d.M, d.D, st).GetDays().Front(); e != nil; e = e.Next() {
+				if x := e.Value.(*calendar.Solar); x.GetDay() == d.D && x.GetMonth() == d.M {
+					return x
+				}
+			}
+			return nil
+		})
+		add("item of SolarMonth.GetDays()", func() *calendar.Solar {
+			for e := calendar.NewSolarMonthFromYm(d.Y, d.M).GetDays().Front(); e != nil; e = e.Next() {
+				if x := e.Value.(*calendar.Solar); x.GetDay() == d.D {
+					return x
+				}
+			}
+			return nil
+		})
+		add("solar of a JieQi object (term days only)", func() *calendar.Solar {
+			if q := d.L().GetCurrentJieQi(); q != nil {
+				return q.GetSolar()
+			}
+			return nil
+		})
 	}
 	add("NewSolarFromDate", func() *calendar.Solar {
 		t := time.Date(d.Y, time.Month(d.M), d.D, 12, 0, 0, 999999999, tzOf(d.J))
